@@ -429,17 +429,23 @@ func (r *Reader) FindBlockForKey(key []byte) ([]BlockLocator, error) {
 	var blocks []BlockLocator
 	seenBlocks := make(map[uint64]bool)
 
-	// First try binary search for efficiency - find the first block
-	// where the first key is >= our target key
+	// The index holds the first key of each block: the key can only be in the
+	// last block whose first key is <= key. Position the index there (on the
+	// first block if the key precedes every first key).
 	indexIter := r.indexBlock.Iterator()
-	indexIter.Seek(key)
-
-	// If the seek fails, start from beginning to check all blocks
-	if !indexIter.Valid() {
-		indexIter.SeekToFirst()
+	candidates := 0
+	for indexIter.SeekToFirst(); indexIter.Valid(); indexIter.Next() {
+		if bytes.Compare(indexIter.Key(), key) > 0 {
+			break
+		}
+		candidates++
+	}
+	indexIter.SeekToFirst()
+	for i := 1; i < candidates; i++ {
+		indexIter.Next()
 	}
 
-	// Process all potential blocks (starting from the one found by Seek)
+	// Process the potential blocks (starting from the one found above)
 	for ; indexIter.Valid(); indexIter.Next() {
 		locator, err := ParseBlockLocator(indexIter.Key(), indexIter.Value())
 		if err != nil {
